@@ -240,52 +240,19 @@ inductive Phase where
   | idle | active | stopped
 deriving Repr, DecidableEq
 
-/-- one format's view of a `DataPublisher` -/
-structure PubSt where
-  phase : Phase := .idle
-  sel : Bool := false           -- this format's writer is set
-  paused : Bool := false        -- `WritingPaused`
-  f : FileSt := {}
-deriving Repr, DecidableEq
-
 inductive Op (ρ : Type) where
-  | start (sel : Bool) (resetPause : Bool)   -- Set<format> calls of START; LJH 2.2/3 setters clear the pause flag
+  | start (sel : Bool) (resetPause : Bool)   -- Set<format> calls of START; the LJH 2.2 / LJH3 setters clear the pause flag
   | publish (batch : List ρ)
   | flush
   | pause
   | unpause
   | stop
 
-def step {ρ} (F : Fmt ρ) (s : PubSt) : Op ρ → PubSt
-  | .start sel reset =>
-    if s.phase = .idle then
-      { s with phase := .active, sel := sel, paused := if reset then false else s.paused }
-    else s
-  | .publish batch =>
-    -- PublishData: nothing for an empty batch, while paused, or without a writer
-    if s.phase = .active ∧ s.sel ∧ !s.paused ∧ !batch.isEmpty then
-      let f1 := if s.f.hdr then s.f else { (s.f.write F.header) with created := true, hdr := true }
-      { s with f := f1.write ((taken F batch).flatMap F.enc) }
-    else s
-  | .flush => if s.phase = .active ∧ s.sel ∧ s.f.created then { s with f := s.f.flush } else s
-  | .pause => { s with paused := true, f := if s.phase = .active ∧ s.sel ∧ s.f.created then s.f.flush else s.f }
-  | .unpause => { s with paused := false, f := if s.phase = .active ∧ s.sel ∧ s.f.created then s.f.flush else s.f }
-  | .stop =>
-    if s.phase = .active then
-      { s with phase := .stopped, f := if s.sel ∧ s.f.created then s.f.close else s.f }
-    else s
-
-def run {ρ} (F : Fmt ρ) (s : PubSt) (ops : List (Op ρ)) : PubSt := ops.foldl (step F) s
-
-/-- the file after STOP: `none` when it was never created -/
-def fileOf (s : PubSt) : Option Bytes := if s.f.created then some s.f.disk else none
-
-/-! #### the specification side: which records were accepted while active and unpaused -/
-
+/-- the control part of one format's `DataPublisher`: is its writer set, and the `WritingPaused` flag -/
 structure Ctl where
   phase : Phase := .idle
-  sel : Bool := false
-  paused : Bool := false
+  sel : Bool := false           -- this format's writer is set
+  paused : Bool := false        -- `WritingPaused`
 deriving Repr, DecidableEq
 
 def ctlStep {ρ} (c : Ctl) : Op ρ → Ctl
@@ -297,20 +264,63 @@ def ctlStep {ρ} (c : Ctl) : Op ρ → Ctl
   | .unpause => { c with paused := false }
   | .stop => if c.phase = .active then { c with phase := .stopped } else c
 
-def writing (c : Ctl) : Bool := c.phase = .active ∧ c.sel ∧ !c.paused
+/-- `PublishData` reaches this format's writer -/
+def writing (c : Ctl) : Bool := c.phase == .active && c.sel && !c.paused
 
-/-- records accepted for the file, in order -/
+/-- the writer exists and has a file (Flush / Close act on it) -/
+def live (c : Ctl) (f : FileSt) : Bool := c.phase == .active && c.sel && f.created
+
+/-- what one operation does to the format's file -/
+def fileStep {ρ} (F : Fmt ρ) (c : Ctl) (f : FileSt) : Op ρ → FileSt
+  | .start _ _ => f
+  | .publish batch =>
+    -- PublishData: nothing for an empty batch, while paused, or without a writer;
+    -- the file is created and the header written by the first batch that gets through
+    if writing c && !batch.isEmpty then
+      let f1 := if f.hdr then f else { (f.write F.header) with created := true, hdr := true }
+      f1.write ((taken F batch).flatMap F.enc)
+    else f
+  | .flush => if live c f then f.flush else f
+  | .pause => if live c f then f.flush else f          -- SetPause flushes
+  | .unpause => if live c f then f.flush else f
+  | .stop => if live c f then f.close else f           -- Remove<format> closes the file
+
+/-- one format's view of a `DataPublisher` -/
+structure PubSt where
+  ctl : Ctl := {}
+  f : FileSt := {}
+deriving Repr, DecidableEq
+
+def step {ρ} (F : Fmt ρ) (s : PubSt) (op : Op ρ) : PubSt :=
+  { ctl := ctlStep s.ctl op, f := fileStep F s.ctl s.f op }
+
+def run {ρ} (F : Fmt ρ) (s : PubSt) (ops : List (Op ρ)) : PubSt := ops.foldl (step F) s
+
+/-- the file after STOP: `none` when it was never created -/
+def fileOf (s : PubSt) : Option Bytes := if s.f.created then some s.f.disk else none
+
+/-! #### the specification side: which records were accepted while active and unpaused -/
+
+/-- the records one operation adds to the file: those of a batch published while writing that the
+writer accepts -/
+def accStep {ρ} (F : Fmt ρ) (c : Ctl) : Op ρ → List ρ
+  | .publish batch => if writing c then taken F batch else []
+  | _ => []
+
+/-- does the operation bring the file into existence (a non-empty batch while writing) -/
+def touchStep {ρ} (c : Ctl) : Op ρ → Bool
+  | .publish batch => writing c && !batch.isEmpty
+  | _ => false
+
+/-- records accepted for the file while writing was active and unpaused, in order -/
 def accepted {ρ} (F : Fmt ρ) : Ctl → List (Op ρ) → List ρ
   | _, [] => []
-  | c, .publish batch :: ops =>
-    (if writing c then taken F batch else []) ++ accepted F (ctlStep c (.publish batch)) ops
-  | c, op :: ops => accepted F (ctlStep c op) ops
+  | c, op :: ops => accStep F c op ++ accepted F (ctlStep c op) ops
 
 /-- was any non-empty batch published while writing (the file is created lazily by the first one) -/
 def touched {ρ} : Ctl → List (Op ρ) → Bool
   | _, [] => false
-  | c, .publish batch :: ops => (writing c && !batch.isEmpty) || touched (ctlStep c (.publish batch)) ops
-  | c, op :: ops => touched (ctlStep c op) ops
+  | c, op :: ops => touchStep c op || touched (ctlStep c op) ops
 
 /-! ### channel parameters and headers -/
 
